@@ -95,7 +95,26 @@ Theorem C11_snapshot_is_state : forall a sz r orc r',
 Proof. exact snapshot_is_state. Qed.
 Print Assumptions C11_snapshot_is_state.
 
-(** ** Retention *)
+(** ** Retention (code of record: count test [keep + 1 >= max_nr], commit 5d8ba60d) *)
+(** The loop always terminates with a result, whatever the arithmetic mode ... *)
+Theorem C11_find_total : forall c now ds, exists k, forall a, find_deltas_truncate_age a c now ds = Some k.
+Proof. exact find_total. Qed.
+Print Assumptions C11_find_total.
+
+(** ... so no request makes the server panic. *)
+Theorem C11_rstep_total : forall a sz r o orc, exists r', rstep a sz r o orc = Some r'.
+Proof. exact rstep_total. Qed.
+Print Assumptions C11_rstep_total.
+
+(** An old delta kept at an index where the count (with the new delta) exceeds max_nr is protected
+    by min_nr or min_seconds: all that is left of "more than max_nr deltas" is the documented
+    priority of the configured minimums. *)
+Theorem C11_kept_beyond_max_protected : forall a c now ds k i x,
+  find_deltas_truncate_age a c now ds = Some k -> nth_error ds i = Some x -> N.of_nat i < k ->
+  c_max_nr c <= N.of_nat i + 1 -> protected c now (N.of_nat i) x = true.
+Proof. exact kept_beyond_max_protected. Qed.
+Print Assumptions C11_kept_beyond_max_protected.
+
 (** DESIGN Appendix A.4: if no delta at an index >= max_nr - 1 is protected (index < min_nr or
     younger than min_seconds), at most max_nr - 1 old deltas are kept. *)
 Theorem C11_retention_bound : forall a c now ds k,
@@ -105,13 +124,21 @@ Theorem C11_retention_bound : forall a c now ds k,
 Proof. exact retention_bound. Qed.
 Print Assumptions C11_retention_bound.
 
-(** The strongest bound by number: only the delta at index max_nr - 1 matters. *)
 Theorem C11_retention_bound_strong : forall a c now ds k,
   1 <= c_max_nr c -> find_deltas_truncate_age a c now ds = Some k ->
   (forall x, nth_error ds (N.to_nat (c_max_nr c - 1)) = Some x -> protected c now (c_max_nr c - 1) x = false) ->
   k <= c_max_nr c - 1.
 Proof. exact retention_bound_strong. Qed.
 Print Assumptions C11_retention_bound_strong.
+
+(** For every configuration: if only the first p old deltas can be protected, at most
+    max (max_nr - 1) p old deltas are kept. *)
+Theorem C11_retention_max_or_protected : forall a c now ds k p,
+  find_deltas_truncate_age a c now ds = Some k ->
+  (forall i x, nth_error ds i = Some x -> p <= N.of_nat i -> protected c now (N.of_nat i) x = false) ->
+  k <= N.max (c_max_nr c - 1) p.
+Proof. exact retention_max_or_protected. Qed.
+Print Assumptions C11_retention_max_or_protected.
 
 Theorem C11_kept_not_old : forall a c now ds k i x,
   find_deltas_truncate_age a c now ds = Some k -> nth_error ds i = Some x -> N.of_nat i < k ->
@@ -131,39 +158,63 @@ Print Assumptions C11_protected_prefix_kept.
 Theorem C11_truncate_age_stop : forall a c now ds k,
   find_deltas_truncate_age a c now ds = Some k ->
   k = N.of_nat (length ds) \/
-  exists x m, nth_error ds (N.to_nat k) = Some x /\ protected c now k x = false
-              /\ usize_pred a (c_max_nr c) = Some m /\ (k = m \/ older_than now (c_max_secs c) x = true).
+  exists x, nth_error ds (N.to_nat k) = Some x /\ protected c now k x = false
+            /\ (c_max_nr c <= k + 1 \/ older_than now (c_max_secs c) x = true).
 Proof. exact truncate_age_stop. Qed.
 Print Assumptions C11_truncate_age_stop.
 
-(** On the server: "the retained deltas never exceed the configured maximum number", under the
-    condition under which it is true. *)
-Theorem C11_retention_system : forall a sz r orc r',
+(** On the server: a retained delta at a position beyond the configured maximum (position 0 is
+    the new delta) is an old delta protected by min_nr or min_seconds ... *)
+Theorem C11_retention_explained_system : forall a sz r orc r' j d,
   rstep a sz r OUpdate orc = Some r' -> staged_nonempty (r_st r) = true ->
-  1 <= c_max_nr (or_cfg orc) ->
-  (forall x, nth_error (r_deltas r) (N.to_nat (c_max_nr (or_cfg orc) - 1)) = Some x ->
-             protected (or_cfg orc) (or_now orc) (c_max_nr (or_cfg orc) - 1) x = false) ->
-  N.of_nat (length (r_deltas r')) <= c_max_nr (or_cfg orc).
+  nth_error (r_deltas r') (S j) = Some d -> c_max_nr (or_cfg orc) <= N.of_nat (S j) ->
+  nth_error (r_deltas r) j = Some d /\ protected (or_cfg orc) (or_now orc) (N.of_nat j) d = true.
+Proof. exact retention_explained_system. Qed.
+Print Assumptions C11_retention_explained_system.
+
+(** ... hence never more than max max_nr (1 + p) deltas, where only the first p old deltas can be
+    protected by the configured minimums. *)
+Theorem C11_retention_system : forall a sz r orc r' p,
+  rstep a sz r OUpdate orc = Some r' -> staged_nonempty (r_st r) = true ->
+  (forall i x, nth_error (r_deltas r) i = Some x -> p <= N.of_nat i ->
+               protected (or_cfg orc) (or_now orc) (N.of_nat i) x = false) ->
+  N.of_nat (length (r_deltas r')) <= N.max (c_max_nr (or_cfg orc)) (1 + p).
 Proof. exact retention_system. Qed.
 Print Assumptions C11_retention_system.
 
-(** F11a: without that condition the clause is false (more than max_nr updates inside
-    min_seconds; or min_nr >= max_nr). *)
+(** What remains of F11a: the clause "never exceed the configured maximum number" at full
+    strength is false, because the configured minimums have priority (more than max_nr deltas
+    younger than min_seconds; min_nr >= max_nr). *)
 Theorem C11_retention_unconditional_refuted : ~ retention_unconditional.
 Proof. exact retention_unconditional_refuted. Qed.
 Print Assumptions C11_retention_unconditional_refuted.
 
-(** F11b: max_nr = 0. With overflow checks the subtraction [max_nr - 1] panics ... *)
+(** Where the delta at index max_nr - 1 is not protected the count test of before 5d8ba60d
+    gives the same result. *)
+Theorem C11_rules_agree_where_unprotected : forall a c now ds,
+  1 <= c_max_nr c ->
+  (forall x, nth_error ds (N.to_nat (c_max_nr c - 1)) = Some x -> protected c now (c_max_nr c - 1) x = false) ->
+  find_deltas_truncate_age a c now ds = find_deltas_truncate_age_v CountEq a c now ds.
+Proof. exact rules_agree_where_unprotected. Qed.
+Print Assumptions C11_rules_agree_where_unprotected.
+
+(** Regression examples about the count test of before 5d8ba60d ([keep == max_nr - 1]).
+    F11a (defect part): it kept deltas beyond the maximum that no minimum protected ... *)
+Theorem C11_pinned_keeps_unprotected_beyond_max : ~ retention_explained (find_deltas_truncate_age_v CountEq Checked).
+Proof. exact pinned_keeps_unprotected_beyond_max. Qed.
+Print Assumptions C11_pinned_keeps_unprotected_beyond_max.
+
+(** ... F11b: with max_nr = 0 the subtraction panicked with overflow checks ... *)
 Theorem C11_max_nr_zero_panics : forall c now d ds,
-  c_max_nr c = 0 -> protected c now 0 d = false -> find_deltas_truncate_age Checked c now (d :: ds) = None.
+  c_max_nr c = 0 -> protected c now 0 d = false -> find_deltas_truncate_age_v CountEq Checked c now (d :: ds) = None.
 Proof. exact max_nr_zero_panics. Qed.
 Print Assumptions C11_max_nr_zero_panics.
 
-(** ... without them it wraps and nothing is ever cut by number. *)
+(** ... and wrapped without them, so that nothing was ever cut by number. *)
 Theorem C11_max_nr_zero_wraps : forall c now ds,
   c_max_nr c = 0 -> N.of_nat (length ds) < usize_max ->
   (forall d, In d ds -> older_than now (c_max_secs c) d = false) ->
-  find_deltas_truncate_age Wrapping c now ds = Some (N.of_nat (length ds)).
+  find_deltas_truncate_age_v CountEq Wrapping c now ds = Some (N.of_nat (length ds)).
 Proof. exact max_nr_zero_wraps. Qed.
 Print Assumptions C11_max_nr_zero_wraps.
 
@@ -249,27 +300,39 @@ Proof. exact stale_new_notification_corrupts. Qed.
 Print Assumptions C11_stale_new_notification_corrupts.
 
 (** ** The rsync tree *)
+(** After a successful write rsync/current holds exactly the snapshot's objects, whatever an
+    earlier attempt for the same serial left in rsync/tmp-<serial> (code of record since e2447e97;
+    [tmp_wf]: a directory that does not exist has nothing below it). *)
 Theorem C11_rsync_equals_snapshot_after_success : forall v f base serial o f',
-  tmp_clean serial f = true -> RelInjective base o -> NoDupO o ->
-  run (rsync_write_ops_v v f base serial o) f = (f', true) ->
+  tmp_wf serial f = true -> AllInside base o -> RelInjective base o -> NoDupO o ->
+  run (rsync_write_ops_v v FreshTmp f base serial o) f = (f', true) ->
   forall rel c, fs_file (current_dir ++ rel) f' = Some c <->
                 exists k ob, In (k, ob) o /\ rel_of base k = Some rel /\ c = CData (DObj (o_content ob)).
 Proof. exact rsync_equals_snapshot_after_success. Qed.
 Print Assumptions C11_rsync_equals_snapshot_after_success.
 
-(** Candidate F11f: without the condition on rsync/tmp-<serial> the clause is false. *)
-Theorem C11_rsync_equals_snapshot_unconditional_refuted : forall v, ~ rsync_equals_snapshot_unconditional v.
+(** F11f (fixed), about the procedure before e2447e97: the same statement is false, and true only
+    from an untouched temporary directory. *)
+Theorem C11_rsync_equals_snapshot_unconditional_refuted : forall v, ~ rsync_equals_snapshot_unconditional v KeepTmp.
 Proof. exact rsync_equals_snapshot_unconditional_refuted. Qed.
 Print Assumptions C11_rsync_equals_snapshot_unconditional_refuted.
 
-(** An interrupted write never prevents later writes: the repaired procedure (code of record
+Theorem C11_rsync_equals_snapshot_keep_tmp : forall v f base serial o f',
+  tmp_clean serial f = true -> RelInjective base o -> NoDupO o ->
+  run (rsync_write_ops_v v KeepTmp f base serial o) f = (f', true) ->
+  forall rel c, fs_file (current_dir ++ rel) f' = Some c <->
+                exists k ob, In (k, ob) o /\ rel_of base k = Some rel /\ c = CData (DObj (o_content ob)).
+Proof. exact rsync_equals_snapshot_keep_tmp. Qed.
+Print Assumptions C11_rsync_equals_snapshot_keep_tmp.
+
+(** An interrupted write never prevents later writes: the repaired switch (code of record
     since e1f99c61), for every tree, every write, every cut point and every later write whose
     files can be written. *)
-Theorem C11_rsync_recovers_after_cut : rsync_never_stuck Repaired.
+Theorem C11_rsync_recovers_after_cut : forall tm, rsync_never_stuck Repaired tm.
 Proof. exact rsync_recovers_after_cut. Qed.
 Print Assumptions C11_rsync_recovers_after_cut.
 
 (** F11c (fixed), about the procedure before the repair: the same statement is false. *)
-Theorem C11_rsync_interrupted_then_stuck : ~ rsync_never_stuck Pinned.
+Theorem C11_rsync_interrupted_then_stuck : ~ rsync_never_stuck Pinned KeepTmp.
 Proof. exact rsync_interrupted_then_stuck. Qed.
 Print Assumptions C11_rsync_interrupted_then_stuck.
